@@ -261,7 +261,10 @@ type Event struct {
 type Run struct {
 	Plan   Plan
 	Cancel context.CancelFunc // optional: invoked by Sched.Cancel
-	clock  atomic.Int64
+	// RegisterExt: every resolver invocation registers one response extension (its own key), as
+	// tracing / cost-reporting user code does from concurrently running resolvers
+	RegisterExt bool
+	clock       atomic.Int64
 	mu     sync.Mutex
 	events []*Event
 	open   atomic.Int64 // resolver invocations currently inside user code
@@ -473,6 +476,9 @@ func (e *Env) makeResolver(meta FieldMeta, ft reflect.Type) reflect.Value {
 				run.finish(ev, out)
 				run.open.Add(-1)
 			}
+		}
+		if run != nil && run.RegisterExt {
+			graphql.RegisterExtension(ctx, "u"+strconv.FormatInt(ev.Seq, 10), 1)
 		}
 		s := plan.Sched(k)
 		for i := 0; i < s.Yields; i++ {
